@@ -1009,17 +1009,15 @@ impl SubRule {
             }
         }
 
-        if match_begin.is_none() {
-            if let ParseElement::SyllBound = states.last().unwrap().kind {
+        // the end of the word is a syllable boundary too: a final `$` matches there, provided everything before it has matched
+        if let ParseElement::SyllBound = states.last().unwrap().kind {
+            if state_index == states.len() - 1 {
                 let sy = word.syllables.len() - 1;
                 let sg = word.syllables[sy].segments.len();
-                Ok(Some(SegPos::new(sy, sg)))
-            } else {
-                Ok(None)
+                return Ok(Some(SegPos::new(sy, sg)))
             }
-        } else {
-            Ok(None)
         }
+        Ok(None)
     }
 
     fn insertion_before(&self, states: &[Item], word: &Word, start_pos: SegPos) -> Result<Option<SegPos>, RuleRuntimeError> {
@@ -1060,7 +1058,8 @@ impl SubRule {
         }
 
         if match_begin.is_none() {
-            if let ParseElement::WordBound | ParseElement::SyllBound = states.first().unwrap().kind {
+            // at the end of the word only boundaries can still match
+            if states.iter().all(|s| matches!(s.kind, ParseElement::WordBound | ParseElement::SyllBound)) {
                 let sy = word.syllables.len() - 1;
                 let sg = word.syllables[sy].segments.len();
                 Ok(Some(SegPos::new(sy, sg)))
